@@ -19,17 +19,39 @@ struct Counting;
 static LIVE_BLOCKS: AtomicIsize = AtomicIsize::new(0);
 static ZERO_SIZE: AtomicUsize = AtomicUsize::new(0);
 static TRACK: AtomicUsize = AtomicUsize::new(0);
+// blocks allocated while tracking: (address, size, align); a release under another layout is recorded; freed memory is poisoned and
+// `realloc` always moves the block (so that a pointer kept across a shrinking / growing call is visibly stale)
+static mut BLOCKS: [(usize, usize, usize); 512] = [(0, 0, 0); 512];
+static MISMATCH: AtomicUsize = AtomicUsize::new(0);
 unsafe impl GlobalAlloc for Counting {
     unsafe fn alloc(&self, l: Layout) -> *mut u8 {
+        let p = System.alloc(l);
         if TRACK.load(SeqCst) == 1 {
             LIVE_BLOCKS.fetch_add(1, SeqCst);
             if l.size() == 0 { ZERO_SIZE.fetch_add(1, SeqCst); }
+            let t = &mut *core::ptr::addr_of_mut!(BLOCKS);
+            for e in t.iter_mut() { if e.0 == 0 { *e = (p as usize, l.size(), l.align()); break; } }
         }
-        System.alloc(l)
+        p
     }
     unsafe fn dealloc(&self, p: *mut u8, l: Layout) {
         if TRACK.load(SeqCst) == 1 { LIVE_BLOCKS.fetch_sub(1, SeqCst); }
+        let t = &mut *core::ptr::addr_of_mut!(BLOCKS);
+        for e in t.iter_mut() {
+            if e.0 == p as usize && e.0 != 0 {
+                if e.1 != l.size() || e.2 != l.align() { MISMATCH.store(e.1 * 1_000_000 + l.size() + 1, SeqCst); }
+                core::ptr::write_bytes(p, 0xDD, e.1.min(l.size()));
+                *e = (0, 0, 0);
+                break;
+            }
+        }
         System.dealloc(p, l)
+    }
+    unsafe fn realloc(&self, p: *mut u8, l: Layout, new_size: usize) -> *mut u8 {
+        let nl = Layout::from_size_align_unchecked(new_size, l.align());
+        let q = self.alloc(nl);
+        if !q.is_null() { core::ptr::copy_nonoverlapping(p, q, l.size().min(new_size)); self.dealloc(p, l); }
+        q
     }
 }
 #[global_allocator]
@@ -77,6 +99,8 @@ fn reset(pe: usize, pc: usize) {
     CALLS.with(|c| c.set(0));
     ZERO_SIZE.store(0, SeqCst);
     LIVE_BLOCKS.store(0, SeqCst);
+    MISMATCH.store(0, SeqCst);
+    unsafe { let t = &mut *core::ptr::addr_of_mut!(BLOCKS); for e in t.iter_mut() { *e = (0, 0, 0); } }
 }
 #[derive(Debug, PartialEq, Clone, Copy)]
 enum Kind { DoubleDrop, Leak, BlockLeak, ZeroSize }
@@ -498,6 +522,46 @@ fn semantic(sc: &str) -> Option<String> {
 }
 
 // ---------------------------------------------------------------------------------------------
+// heap sources: try_from_vec / try_from_boxed_slice with every length around N and spare capacity 0, 1, 3
+// ---------------------------------------------------------------------------------------------
+fn heap_one<X: El, N: ArrayLength>(which: &str, want: &str) -> Option<String> {
+    let n = N::USIZE;
+    for len in [n.saturating_sub(1), n, n + 1] { for spare in [0usize, 1, 3] {
+        if which == "heap.try_from_boxed_slice" && spare != 0 { continue; }
+        reset(usize::MAX, usize::MAX);
+        let mut bad: Option<String> = None;
+        let panicked = tracked(|| {
+            let mut v: Vec<X> = Vec::with_capacity(len + spare);
+            for i in 0..len { v.push(X::new(i)); }
+            let r = if which == "heap.try_from_vec" { GenericArray::<X, N>::try_from_vec(v) } else { GenericArray::<X, N>::try_from_boxed_slice(v.into_boxed_slice()) };
+            match &r {
+                Ok(b) => { if len != n { bad = Some("Ok for a source of another length".into()); } else if !X::ZST { for (i, e) in b.iter().enumerate() { if e.idv() != i { bad = Some(format!("element {i} of the boxed array reads {} (stale or moved buffer)", e.idv())); } } } }
+                Err(_) => { if len == n { bad = Some("LengthError for a source of exactly N elements".into()); } }
+            }
+            drop(r);
+        });
+        let cfg = format!("scenario={which} element={} N={n} len={len} spare_capacity={spare}", if X::ZST { "zero-sized" } else { "sized" });
+        if panicked { if want == "semantic" { return Some(format!("{cfg}: panicked")); } continue; }
+        let mm = MISMATCH.load(SeqCst);
+        if want == "dealloc-mismatch" && mm != 0 { return Some(format!("{cfg}: a block allocated with {} bytes was released as {} bytes", mm / 1_000_000, mm % 1_000_000 - 1)); }
+        if want == "semantic" { if let Some(b) = bad { return Some(format!("{cfg}: {b}")); } }
+        match (want, verdict()) {
+            ("leak", Some((Kind::Leak, m))) | ("double-drop", Some((Kind::DoubleDrop, m))) | ("block-leak", Some((Kind::BlockLeak, m))) => return Some(format!("{cfg}: {m}")),
+            _ => {}
+        }
+    } }
+    None
+}
+fn heap_sweep(which: &str, want: &str) -> Option<String> {
+    let quiet = std::panic::take_hook();
+    std::panic::set_hook(Box::new(|_| {}));
+    let r = heap_one::<E, U0>(which, want).or_else(|| heap_one::<E, U1>(which, want)).or_else(|| heap_one::<E, U2>(which, want)).or_else(|| heap_one::<E, U4>(which, want))
+        .or_else(|| heap_one::<Zt, U0>(which, want)).or_else(|| heap_one::<Zt, U2>(which, want));
+    std::panic::set_hook(quiet);
+    r
+}
+
+// ---------------------------------------------------------------------------------------------
 // serde: GAVisitor::visit_seq driven by a scripted SeqAccess (element count, hints, failing element, panicking call)
 // ---------------------------------------------------------------------------------------------
 mod sd {
@@ -718,6 +782,12 @@ fn main() {
         match oob_sweep(&args[1]) {
             Some(msg) => { println!("REPRODUCED scenario={} {msg}", args[1]); std::process::exit(1) }
             None => { println!("NOT-REPRODUCED scenario={}: out-of-bounds remove panics and drops every element once for N <= 4", args[1]); return; }
+        }
+    }
+    if args[1].starts_with("heap.") {
+        match heap_sweep(&args[1], &args[2]) {
+            Some(msg) => { println!("REPRODUCED {msg}"); std::process::exit(1) }
+            None => { println!("NOT-REPRODUCED scenario={} kind={}: native sweep over N in {{0,1,2,4}}, source length N-1..=N+1, spare capacity 0/1/3, sized and zero-sized elements", args[1], args[2]); return; }
         }
     }
     if args[1].starts_with("serde.") {
